@@ -474,10 +474,6 @@ Proof.
   exact (ladder_width 6 iec_ladder (proj1 iec_ladder_ok) (proj2 iec_ladder_ok) n Hn).
 Qed.
 
-(* the bounds are attained: both widths are sharp *)
-Lemma widths_sharp : length (formatSI 1000) = 5%nat /\ length (formatIEC 1024) = 6%nat.
-Proof. vm_compute. split; reflexivity. Qed.
-
 (* F-9 (fixed by af480e4: the 10.0P..99.9P rung is chosen on the double): with every test of the
    regenerated ladder made on the integer -- the ladder as it was before the fix -- the eight
    integers 99949999999999992..99949999999999999, which convert to 9.995e16, print "100.0P".
